@@ -21,7 +21,7 @@ RULE = ("stripes: random band-limited (500-6000 Hz AP, 20-200 Hz LF) waveforms o
 ASSUMPTIONS = ["thresholds are the ones the property states: attenuation <= -40 dB on the central two thirds w.r.t. the high-passed input; spike keeps "
                ">= 90 % of its high-passed, re-aligned amplitude on its peak channel", "a 'few neighbouring channels' = the 7 nearest sites with a Gaussian footprint of sigma 0.4-0.7 site pitches (retention falls "
                "smoothly with footprint width: measured 0.94-0.97 in that range, 0.89-0.91 at sigma 1.0-1.3, which is no longer 'a few channels')", "grouped filters are compared with per-group calls using default padding on both sides"]
-REQUIRED = {"default_header_checked": 2, "adc_tables_checked": 40, "labels_true_checked": 2, "labels_true_with_bad_channels": 2, "stripe_attenuations": 8, "spike_retentions": 8, "outside_checked": 6, "car_zero_reference": 10, "group_equals_separate": 20,
+REQUIRED = {"reader_headers_unsorted_of_permuted_recordings": 3, "default_header_checked": 2, "adc_tables_checked": 40, "labels_true_checked": 2, "labels_true_with_bad_channels": 2, "stripe_attenuations": 8, "spike_retentions": 8, "outside_checked": 6, "car_zero_reference": 10, "group_equals_separate": 20,
             "agc_products": 20, "referencing_through_destripe": 16, "settings_through_destripe": 4, "lfp_forwarding_checked": 3, "file_headers_checked": 4, "few_channel_arrays": 4, "fk_grouped_with_padding": 4, "file_pipeline_batches": 4, "file_pipeline_spikes": 10}
 CASE_TIMEOUT = 120.0
 KINDS = ["3B2", "NP2.1", "NP2.4", "NPultra"]
@@ -289,6 +289,26 @@ def run_case(case):
                 res.check(att <= -40.0, "destripe:stripe-attenuation:header-from-file", f"{label}: stripe attenuated by {att:.1f} dB only (needs <= -40 dB)",
                           counter="file_headers_checked")
                 sigs.add((kind0, enc, sort))
+            if kind0 != "NP2.4-split":
+                # round 22: the header as a READER hands it out (Reader(file, sort=...).geometry), for data in the channel order that reader exposes. The
+                # order of the data is the generator's (file order, or its own sort of the site table) - not read back from the header under test
+                # (sites saved in an arbitrary order, both settings of the reader's sort option)
+                recr = G.make(rng, kind=kind, sites=G.draw_sites(rng, kind, 384, "random"), encoding=enc, ns=3, raw=np.zeros((3, 385), np.int16))
+                bfile = G.write(recr, d / "rd")
+                for sort_r in (True, False):
+                    srh = spikeglx.Reader(bfile, sort=sort_r)
+                    hrd = {k: np.array(v) for k, v in srh.geometry.items()}
+                    srh.close()
+                    data_order = np.asarray(recr.order, int)[:384] if sort_r else np.arange(384)
+                    st = GS.stripe(rng, ns, fs, recr.sample_shift[data_order], 600, 5000, float(rng.uniform(50e-6, 300e-6)))
+                    out = V.destripe(st.copy(), fs, h=hrd, neuropixel_version=1 if kind == "3B2" else 2, k_filter=kf)
+                    sl = slice(ns // 6, ns - ns // 6)
+                    att = GS.db(GS.rms(out[:, sl]), GS.rms(hp(st, fs)[:, sl]))
+                    res.measure("worst_stripe_attenuation_reader_header_db", att)
+                    res.check(att <= -40.0, "destripe:stripe-attenuation:header-from-reader", f"{kind0}/{enc}/random sites [header = Reader(sort={sort_r}).geometry] "
+                              f"{'k-filter' if kf else 'CAR'}: stripe attenuated by {att:.1f} dB only (needs <= -40 dB)", counter="reader_headers_checked")
+                    if not sort_r and not np.array_equal(np.asarray(recr.order, int)[:384], np.arange(384)):
+                        res.count("reader_headers_unsorted_of_permuted_recordings")
         except Exception as e:
             res.exception("destripe:exception", e, label)
     elif cls == "file-pipeline":
